@@ -15,6 +15,9 @@ import (
 
 const verifDir = "/verif"
 
+// curProp is the property being checked (some obligation kinds exist for one property only).
+var curProp string
+
 type knownFinding struct {
 	Status     string // open | fixed
 	Property   string
@@ -130,6 +133,7 @@ func cmdCheck(args []string) int {
 		return 2
 	}
 	t0 := time.Now()
+	curProp = *prop
 	seed, _ := strconv.Atoi(os.Getenv("VERIF_SEED"))
 	tier := "quick"
 	if *thorough || os.Getenv("VERIF_TIER") == "thorough" {
@@ -201,7 +205,13 @@ func cmdCheck(args []string) int {
 			}
 		}
 	}
-	if len(selFuncs) == 0 && len(lemmaSet) == 0 {
+	sweep := *prop == guardProp && len(ct.Discipline) > 0
+	if sweep {
+		for _, d := range ct.Discipline {
+			pkgDirs[d] = true
+		}
+	}
+	if len(selFuncs) == 0 && len(lemmaSet) == 0 && !sweep {
 		fmt.Fprintf(os.Stderr, "check: no contracts serve property %s\n", *prop)
 		return 2
 	}
@@ -220,6 +230,40 @@ func cmdCheck(args []string) int {
 		}
 	}
 	lemmaProg = prog
+	if sweep && prog != nil {
+		// lock-discipline sweep: every function of the listed packages that touches a guarded field, under its own
+		// contract when it has one, otherwise under an empty one
+		have := map[string]bool{}
+		for _, fc := range selFuncs {
+			have[fc.Name] = true
+		}
+		swept := map[string]bool{}
+		for _, d := range ct.Discipline {
+			swept["github.com/google/mtail/"+strings.TrimPrefix(d, "./")] = true
+		}
+		st := newSortTable()
+		for _, n := range prog.sortedFuncNames() {
+			fn := prog.Funcs[n]
+			if fn.Pkg == nil || !swept[fn.Pkg.Pkg.Path()] || len(fn.Blocks) == 0 || have[n] || fn.Synthetic != "" {
+				continue
+			}
+			if *only != "" && !strings.Contains(n, *only) {
+				continue
+			}
+			if !accessesGuarded(st, ct.Guards, fn) {
+				continue
+			}
+			fc := ct.Funcs[n]
+			if fc != nil && (fc.Trusted || len(fc.Cases) > 0) {
+				continue
+			}
+			if fc == nil {
+				fc = &FuncContract{Name: n, Props: []string{guardProp}, Loops: map[int][]*Clause{}, Synth: true}
+			}
+			selFuncs = append(selFuncs, fc)
+			have[n] = true
+		}
+	}
 	tLoad := time.Since(t0).Seconds()
 	// generate
 	var results []*FuncResult
@@ -245,6 +289,10 @@ func cmdCheck(args []string) int {
 			}
 			results = append(results, r)
 			if r.Err != "" {
+				if fc.Synth || (*prop == guardProp && !hasProp(fc.Props, guardProp)) {
+					notes["lock discipline: "+r.Name+" is outside the verifier's subset, its accesses are NOT checked ("+r.Err+")"] = true
+					continue
+				}
 				genErrs = append(genErrs, genErr{r.Name, r.Err})
 				continue
 			}
